@@ -1011,10 +1011,14 @@ func (r *sessRun) race(k int, op sessOp) string {
 	return ""
 }
 
-// topic numbers of the session histories: 0, 1 ordinary; 2 has an empty first level (leading slash)
+// topic numbers of the session histories: 0, 1 ordinary; 2 has an empty first level (leading slash); 3 has a first
+// level that begins with '$' (no wildcard filter reaches it, '#' included)
 func sessTopic(t int) string {
 	if t == 2 {
 		return "/t/2"
+	}
+	if t == 3 {
+		return "$t/3"
 	}
 	return fmt.Sprintf("t/%d", t)
 }
